@@ -23,10 +23,11 @@ VARIABLES sc, b,
           pendP,      \* [Subs -> "none" | "pause" | "resume"]
           cnt,        \* frames each probe has produced
           tmp,        \* [tracks -> temp buffer]  (must be all zero between uses)
-          sendIn,     \* the send track's input buffer (length b)
+          sendIn,     \* [{"S", "S2"} -> input buffer of that send track (length b)]
+          sends,      \* send tracks in the arena
           nops, cb, act, ev, mon, bad
 
-ivars == <<sc, b, inA, alive, state, fin, mark, pendP, cnt, tmp, sendIn, nops, cb>>
+ivars == <<sc, b, inA, alive, state, fin, mark, pendP, cnt, tmp, sendIn, sends, nops, cb>>
 vars == <<ivars, act, ev, mon, bad>>
 
 \* (TLCEval: force the lazily evaluated functions into sequences)
@@ -40,7 +41,8 @@ Init ==
   /\ inA = sc.snd /\ alive = sc.trk
   /\ state = TLCEval([t \in Subs |-> "Playing"]) /\ fin = {} /\ mark = {} /\ pendP = TLCEval([t \in Subs |-> "none"])
   /\ cnt = TLCEval([s \in Snds |-> 0])
-  /\ tmp = TLCEval([t \in {"mixer", "main", "A", "B"} |-> Zero(b)]) /\ sendIn = Zero(b)
+  /\ tmp = TLCEval([t \in {"mixer", "main", "A", "B"} |-> Zero(b)]) /\ sendIn = TLCEval([k \in {"S", "S2"} |-> Zero(b)])
+  /\ sends = (IF sc.send THEN {"S"} ELSE {}) \cup (IF sc.send2 THEN {"S2"} ELSE {})
   /\ nops = 0 /\ cb = 0 /\ act = <<"Init">> /\ ev = [a |-> "tau"]
   /\ mon = PInit(sc) /\ bad = ""
 
@@ -52,9 +54,10 @@ Op(o, x) ==
                                        /\ pendP' = [pendP EXCEPT ![x] = o] /\ UNCHANGED <<fin, mark>>
        [] o = "finish" -> x \in inA \ fin /\ fin' = fin \cup {x} /\ UNCHANGED <<pendP, mark>>
        [] o = "drop" -> /\ x \notin mark /\ (x = "B" => "B" \in alive) /\ (x = "AB" => "A" \in alive)
+                        /\ (x \in {"S", "S2"} => x \in sends)
                         /\ mark' = mark \cup {x} /\ UNCHANGED <<pendP, fin>>
   /\ act' = <<"Op", o, x>> /\ ev' = [a |-> "op", o |-> o, x |-> x]
-  /\ UNCHANGED <<sc, b, inA, alive, state, cnt, tmp, sendIn, cb>>
+  /\ UNCHANGED <<sc, b, inA, alive, state, cnt, tmp, sendIn, sends, cb>>
 
 \* ---------------------------------------------------------------- audio
 ParentT(t) == IF t = "B" /\ sc.shape = "chain" THEN "A" ELSE "main"
@@ -75,8 +78,10 @@ TrackProc(x, t, len) ==
            x2 == IF has THEN [x1 EXCEPT !.cnt[s] = @ + len, !.asks[s] = Append(@, len)] ELSE x1
            o2 == AddV(o1, sv)
            o3 == MulV(HalfV(o2, sc.fx[t]), sc.vol[t])                    \* effects, then volume x fade (1)
-           x3 == IF sc.send /\ sc.rv[t] = 1 THEN [x2 EXCEPT !.sendIn = AddV(@, o3)] ELSE x2   \* post-fader send
-       IN <<x3, o3>>
+           \* post-fader sends (the route table is a hash map: no particular order); a route whose send track is gone is skipped
+           x3 == IF sc.send /\ sc.rv[t] = 1 /\ "S" \in x2.sends THEN [x2 EXCEPT !.sendIn["S"] = AddV(@, o3)] ELSE x2
+           x4 == IF sc.send2 /\ sc.rv2[t] = 1 /\ "S2" \in x3.sends THEN [x3 EXCEPT !.sendIn["S2"] = AddV(@, o3)] ELSE x3
+       IN <<x4, o3>>
 
 Chunk(x, len) ==
   LET top == IF sc.shape = "chain" THEN <<"A">> ELSE <<"A", "B">>
@@ -86,8 +91,10 @@ Chunk(x, len) ==
       x1 == pb[1]
       subs == AddV(pa[2], pb[2])
       \* send track: out += input[..len]; input.fill(ZERO); effects; volume
-      sendOut == IF sc.send THEN MulV(HalfV(TLCEval([i \in 1..len |-> x1.sendIn[i]]), sc.fx["S"]), sc.vol["S"]) ELSE Zero(len)
-      x2 == [x1 EXCEPT !.sendIn = Zero(b)]
+      sendOut1 == IF "S" \in x1.sends THEN MulV(HalfV(TLCEval([i \in 1..len |-> x1.sendIn["S"][i]]), sc.fx["S"]), sc.vol["S"]) ELSE Zero(len)
+      sendOut2 == IF "S2" \in x1.sends THEN TLCEval([i \in 1..len |-> x1.sendIn["S2"][i]]) ELSE Zero(len)      \* (S2: no effect, 0 dB)
+      sendOut == AddV(sendOut1, sendOut2)
+      x2 == [x1 EXCEPT !.sendIn = TLCEval([k \in {"S", "S2"} |-> Zero(b)])]
       \* main track: its own sounds, effects, volume
       has0 == "s0" \in x2.inA
       sv == IF has0 THEN TLCEval([i \in 1..len |-> Val("s0", x2.cnt["s0"] + i - 1)]) ELSE Zero(len)
@@ -110,11 +117,12 @@ Callback(n) ==
          alive1 == (alive \ (IF goneA THEN {"A", "B"} ELSE {})) \ (IF goneB THEN {"B"} ELSE {})
          inA1 == {s \in inA \ fin : Host(s) = "main" \/ Host(s) \in alive1}
          state1 == TLCEval([t \in Subs |-> IF pendP[t] = "pause" THEN "Paused" ELSE IF pendP[t] = "resume" THEN "Playing" ELSE state[t]])
-         x0 == [inA |-> inA1, alive |-> alive1, state |-> state1, cnt |-> cnt, sendIn |-> sendIn,
+         sends1 == sends \ mark
+         x0 == [inA |-> inA1, alive |-> alive1, state |-> state1, cnt |-> cnt, sendIn |-> sendIn, sends |-> sends1,
                 asks |-> TLCEval([s \in Snds |-> <<>>])]
          r == Chunks2(x0, n, <<>>)
          x == r[1]
-     IN /\ inA' = x.inA /\ alive' = x.alive /\ state' = x.state /\ cnt' = x.cnt /\ sendIn' = x.sendIn
+     IN /\ inA' = x.inA /\ alive' = x.alive /\ state' = x.state /\ cnt' = x.cnt /\ sendIn' = x.sendIn /\ sends' = x.sends
         /\ ev' = [a |-> "cb", n |-> n, b |-> b, out |-> r[2], asks |-> x.asks, n0 |-> cnt, panicked |-> FALSE]
   /\ pendP' = TLCEval([t \in Subs |-> "none"])
   /\ UNCHANGED <<sc, b, fin, mark, tmp, nops>>
@@ -122,7 +130,7 @@ Callback(n) ==
 \* (resuming ramps the fade across one chunk - inexact gains; resume continuity is C12's subject)
 INext == \/ \E o \in {"pause"}, x \in Subs : Op(o, x)
          \/ \E s \in Snds : Op("finish", s)
-         \/ \E x \in {"B", "AB"} : Op("drop", x)
+         \/ \E x \in {"B", "AB", "S", "S2"} : Op("drop", x)
          \/ \E n \in Ns : Callback(n)
 
 Monitor ==
@@ -135,8 +143,10 @@ Next == INext /\ Monitor
 Spec == Init /\ [][Next]_vars
 
 PropertyHolds == bad = ""
-SendInputCleared == sendIn = Zero(b)                 \* nothing carries over between chunks or callbacks
+SendInputCleared == \A k \in {"S", "S2"} : sendIn[k] = Zero(b)                 \* nothing carries over between chunks or callbacks
 W_Nonzero == ~(ev.a = "cb" /\ \E f \in 1..Len(ev.out) : ev.out[f] # 0)
 W_SendAudible == ~(ev.a = "cb" /\ sc.send /\ sc.rv["A"] = 1 /\ sc.vol["A"] = 1 /\ sc.vol["S"] = 1 /\ ev.out # Zero(Len(ev.out)))
+W_SecondSendAlone == ~(ev.a = "cb" /\ sc.send2 /\ "S" \notin sends /\ "S2" \in sends /\ sc.rv["A"] = 1 /\ sc.rv2["A"] = 1 /\ sc.vol["A"] = 1
+                       /\ "A" \in alive /\ state["A"] = "Playing" /\ ev.out # Zero(Len(ev.out)))
 W_Remainder == ~(ev.a = "cb" /\ ev.n > b /\ ev.n % b # 0)
 =============================================================================
